@@ -44,7 +44,7 @@ package rules
 //
 // Files: c11.go (registration, mutants), c11_benign.go (behaviour-preserving variants), c11_compute.go (path
 // model of Compute, A1, A2 error returns), c11_a2.go (Ways/Relations/options), c11_a3.go, c11_a4.go (A4 and
-// A5 refs@), c11_a5.go, c11_bound.go (provenance of the window bound), c11_refs.go, c11_gets.go, c11_cmp.go (comparators found by role), c11_ref.go (pointers to locals, method values, defer), c11_rev2.go (reversal flag computed in a later pass), c11_a7.go (empty child history never indexed), c11_group.go / c11_group_ind.go / c11_list.go (grouping
+// A5 refs@), c11_a5.go, c11_bound.go (provenance of the window bound), c11_refs.go, c11_gets.go, c11_cmp.go (comparators found by role), c11_ref.go (pointers to locals, method values, defer), c11_rev2.go (reversal flag computed in a later pass), c11_a7.go (empty child history never indexed), c11_sortskip.go (sort skipped after a strict-ascending check), c11_group.go / c11_group_ind.go / c11_list.go (grouping
 // method: finite-domain evaluation in concrete-list mode, inductive proof of the peel-off form), c11_debug.go (C11_DUMP=<function> prints the paths).
 
 import (
@@ -351,6 +351,27 @@ func init() {
 				Find:       "\t\treturn child[len(child)-1].VersionIndex + 1\n",
 				Replace:    "\t\tif len(child) > 0 && child[len(child)-2].Visible {\n\t\t\treturn len(child)\n\t\t}\n\t\treturn child[len(child)-1].VersionIndex + 1\n",
 				ExpectRule: "A7", ExpectConstruct: "nonempty@Compute child[len(child)-2]"},
+			// ---- round 10
+			{Name: "sort-skipped-on-non-strict-order", File: "annotate/datasource.go",
+				Find:       "func relationsToChildList(relations osm.Relations) core.ChildList {\n\tif len(relations) == 0 {\n\t\treturn nil\n\t}\n\n\tlist := make(core.ChildList, len(relations))\n\trelations.SortByIDVersion()\n\tfor i, r := range relations {\n\t\tc := shared.FromRelation(r)\n\t\tc.VersionIndex = i\n\t\tlist[i] = c\n\t}\n\n\treturn list\n}\n",
+				Replace:    "func relationsToChildList(relations osm.Relations) core.ChildList {\n\tif len(relations) == 0 {\n\t\treturn nil\n\t}\n\n\tlist := make(core.ChildList, len(relations))\n\tif !relationsAscending(relations) {\n\t\trelations.SortByIDVersion()\n\t}\n\tfor i, r := range relations {\n\t\tc := shared.FromRelation(r)\n\t\tc.VersionIndex = i\n\t\tlist[i] = c\n\t}\n\n\treturn list\n}\n\n// relationsAscending reports whether the versions already are in strictly ascending order.\nfunc relationsAscending(rs osm.Relations) bool {\n\tfor i := 1; i < len(rs); i++ {\n\t\tprev, cur := rs[i-1], rs[i]\n\t\tif prev == nil || cur == nil {\n\t\t\treturn false\n\t\t}\n\n\t\tif prev.ID < cur.ID || (prev.ID == cur.ID && prev.Version <= cur.Version) {\n\t\t\tcontinue\n\t\t}\n\n\t\treturn false\n\t}\n\n\treturn true\n}\n",
+				ExpectRule: "A4", ExpectConstruct: "sorted@Relations"},
+			{Name: "sort-skip-check-misses-first-pair", File: "annotate/datasource.go",
+				Find:       "func relationsToChildList(relations osm.Relations) core.ChildList {\n\tif len(relations) == 0 {\n\t\treturn nil\n\t}\n\n\tlist := make(core.ChildList, len(relations))\n\trelations.SortByIDVersion()\n\tfor i, r := range relations {\n\t\tc := shared.FromRelation(r)\n\t\tc.VersionIndex = i\n\t\tlist[i] = c\n\t}\n\n\treturn list\n}\n",
+				Replace:    "func relationsToChildList(relations osm.Relations) core.ChildList {\n\tif len(relations) == 0 {\n\t\treturn nil\n\t}\n\n\tlist := make(core.ChildList, len(relations))\n\tif !relationsAscending(relations) {\n\t\trelations.SortByIDVersion()\n\t}\n\tfor i, r := range relations {\n\t\tc := shared.FromRelation(r)\n\t\tc.VersionIndex = i\n\t\tlist[i] = c\n\t}\n\n\treturn list\n}\n\n// relationsAscending reports whether the versions already are in strictly ascending order.\nfunc relationsAscending(rs osm.Relations) bool {\n\tfor i := 2; i < len(rs); i++ {\n\t\tprev, cur := rs[i-1], rs[i]\n\t\tif prev == nil || cur == nil {\n\t\t\treturn false\n\t\t}\n\n\t\tif prev.ID < cur.ID || (prev.ID == cur.ID && prev.Version < cur.Version) {\n\t\t\tcontinue\n\t\t}\n\n\t\treturn false\n\t}\n\n\treturn true\n}\n",
+				ExpectRule: "A4", ExpectConstruct: "sorted@Relations"},
+			{Name: "sort-skip-check-ignores-version", File: "annotate/datasource.go",
+				Find:       "func relationsToChildList(relations osm.Relations) core.ChildList {\n\tif len(relations) == 0 {\n\t\treturn nil\n\t}\n\n\tlist := make(core.ChildList, len(relations))\n\trelations.SortByIDVersion()\n\tfor i, r := range relations {\n\t\tc := shared.FromRelation(r)\n\t\tc.VersionIndex = i\n\t\tlist[i] = c\n\t}\n\n\treturn list\n}\n",
+				Replace:    "func relationsToChildList(relations osm.Relations) core.ChildList {\n\tif len(relations) == 0 {\n\t\treturn nil\n\t}\n\n\tlist := make(core.ChildList, len(relations))\n\tif !relationsAscending(relations) {\n\t\trelations.SortByIDVersion()\n\t}\n\tfor i, r := range relations {\n\t\tc := shared.FromRelation(r)\n\t\tc.VersionIndex = i\n\t\tlist[i] = c\n\t}\n\n\treturn list\n}\n\n// relationsAscending reports whether the versions already are in strictly ascending order.\nfunc relationsAscending(rs osm.Relations) bool {\n\tfor i := 1; i < len(rs); i++ {\n\t\tprev, cur := rs[i-1], rs[i]\n\t\tif prev == nil || cur == nil {\n\t\t\treturn false\n\t\t}\n\n\t\tif prev.ID <= cur.ID {\n\t\t\tcontinue\n\t\t}\n\n\t\treturn false\n\t}\n\n\treturn true\n}\n",
+				ExpectRule: "A4", ExpectConstruct: "sorted@Relations"},
+			{Name: "updates-sort-fast-path-too-wide", File: "update.go",
+				Find:       "func (us Updates) SortByIndex()           { sort.Sort(updatesSortIndex(us)) }\n",
+				Replace:    "func (us Updates) SortByIndex() {\n\tif len(us) < 3 {\n\t\treturn\n\t}\n\n\tsort.Sort(updatesSortIndex(us))\n}\n",
+				ExpectRule: "A6", ExpectConstruct: "anchor"},
+			{Name: "scratch-aliased-into-results", File: "annotate/internal/core/compute.go",
+				Find:       "\tresults := make([]osm.Updates, len(parents))\n\tfor fid, locations := range mapChildLocs(parents, opts.ChildFilter) {\n\t\tchild, err := histories.Get(ctx, fid)\n\t\tif err != nil {\n\t\t\tif !histories.NotFound(err) {\n\t\t\t\treturn nil, err\n\t\t\t}\n\n\t\t\tif opts.IgnoreMissingChildren {\n\t\t\t\tcontinue\n\t\t\t}\n\n\t\t\treturn nil, &NoHistoryError{ChildID: fid}\n\t\t}\n\n\t\tfor _, locs := range locations.GroupByParent() {\n\t\t\t// figure out the parent and the next parent\n\t\t\tparentIndex := locs[0].Parent\n\t\t\tparent := parents[parentIndex]\n\t\t\tif !parent.Visible() {\n\t\t\t\tcontinue\n\t\t\t}\n\n\t\t\tvar nextParent Parent\n\t\t\tif parentIndex < len(parents)-1 {\n\t\t\t\tnextParent = parents[parentIndex+1]\n\t\t\t}\n\n\t\t\t// get the current child\n\t\t\tc := child.FindVisible(\n\t\t\t\tparent.ChangesetID(),\n\t\t\t\ttimeThresholdParent(parent, 0),\n\t\t\t\topts.Threshold,\n\t\t\t)\n\t\t\tif c == nil && !opts.IgnoreInconsistency {\n\t\t\t\treturn nil, &NoVisibleChildError{\n\t\t\t\t\tChildID:   fid,\n\t\t\t\t\tTimestamp: timeThresholdParent(parent, 0)}\n\t\t\t}\n\n\t\t\t// straight up set this child on major version\n\t\t\tfor _, cl := range locs {\n\t\t\t\tparent.SetChild(cl.Index, c)\n\t\t\t}\n\n\t\t\t// nextVersionIndex figures out what version of this child\n\t\t\t// is present in the next parent version\n\t\t\tnextVersion := nextVersionIndex(c, child, nextParent, opts)\n\n\t\t\tstart := 0\n\t\t\tif c != nil {\n\t\t\t\tstart = c.VersionIndex + 1\n\t\t\t} else {\n\t\t\t\t// current child is not defined, is next child\n\t\t\t\tnext := child.VersionBefore(timeThresholdParent(parent, 0))\n\t\t\t\tif next == nil {\n\t\t\t\t\tstart = 0\n\t\t\t\t} else {\n\t\t\t\t\tstart = next.VersionIndex + 1\n\t\t\t\t}\n\t\t\t}\n\n\t\t\tvar updates osm.Updates\n\t\t\tfor k := start; k < nextVersion; k++ {\n\t\t\t\tif child[k].Visible {\n\t\t\t\t\t// It's possible for this child to be present at multiple locations in the parent\n\t\t\t\t\tfor _, cl := range locs {\n\t\t\t\t\t\tu := child[k].Update()\n\t\t\t\t\t\tu.Index = cl.Index\n\t\t\t\t\t\tupdates = append(updates, u)\n\t\t\t\t\t}\n\t\t\t\t} else {\n\t\t\t\t\t// A child has become not-visible between parent version.\n\t\t\t\t\t// This is a data inconsistency that can happen in old data\n\t\t\t\t\t// i.e. pre element versioning.\n\t\t\t\t\t//\n\t\t\t\t\t// see node 321452894, changed 7 times in\n\t\t\t\t\t// the same changeset, version 5 was a delete. (also node 65172196)\n\t\t\t\t\tif !opts.IgnoreInconsistency {\n\t\t\t\t\t\treturn nil, fmt.Errorf(\"%v: %v: child deleted between parent versions\",\n\t\t\t\t\t\t\tparent.ID(), fid)\n\t\t\t\t\t}\n\t\t\t\t}\n\t\t\t}\n\n\t\t\t// we have what we need for this parent version.\n\t\t\tresults[parentIndex] = append(results[parentIndex], updates...)\n",
+				Replace:    "\tresults := make([]osm.Updates, len(parents))\n\n\t// scratch holds the updates of one child for one parent version, its contents are copied into results.\n\tvar scratch osm.Updates\n\tfor fid, locations := range mapChildLocs(parents, opts.ChildFilter) {\n\t\tchild, err := histories.Get(ctx, fid)\n\t\tif err != nil {\n\t\t\tif !histories.NotFound(err) {\n\t\t\t\treturn nil, err\n\t\t\t}\n\n\t\t\tif opts.IgnoreMissingChildren {\n\t\t\t\tcontinue\n\t\t\t}\n\n\t\t\treturn nil, &NoHistoryError{ChildID: fid}\n\t\t}\n\n\t\tfor _, locs := range locations.GroupByParent() {\n\t\t\t// figure out the parent and the next parent\n\t\t\tparentIndex := locs[0].Parent\n\t\t\tparent := parents[parentIndex]\n\t\t\tif !parent.Visible() {\n\t\t\t\tcontinue\n\t\t\t}\n\n\t\t\tvar nextParent Parent\n\t\t\tif parentIndex < len(parents)-1 {\n\t\t\t\tnextParent = parents[parentIndex+1]\n\t\t\t}\n\n\t\t\t// get the current child\n\t\t\tc := child.FindVisible(\n\t\t\t\tparent.ChangesetID(),\n\t\t\t\ttimeThresholdParent(parent, 0),\n\t\t\t\topts.Threshold,\n\t\t\t)\n\t\t\tif c == nil && !opts.IgnoreInconsistency {\n\t\t\t\treturn nil, &NoVisibleChildError{\n\t\t\t\t\tChildID:   fid,\n\t\t\t\t\tTimestamp: timeThresholdParent(parent, 0)}\n\t\t\t}\n\n\t\t\t// straight up set this child on major version\n\t\t\tfor _, cl := range locs {\n\t\t\t\tparent.SetChild(cl.Index, c)\n\t\t\t}\n\n\t\t\t// nextVersionIndex figures out what version of this child\n\t\t\t// is present in the next parent version\n\t\t\tnextVersion := nextVersionIndex(c, child, nextParent, opts)\n\n\t\t\tstart := 0\n\t\t\tif c != nil {\n\t\t\t\tstart = c.VersionIndex + 1\n\t\t\t} else {\n\t\t\t\t// current child is not defined, is next child\n\t\t\t\tnext := child.VersionBefore(timeThresholdParent(parent, 0))\n\t\t\t\tif next == nil {\n\t\t\t\t\tstart = 0\n\t\t\t\t} else {\n\t\t\t\t\tstart = next.VersionIndex + 1\n\t\t\t\t}\n\t\t\t}\n\n\t\t\tupdates := scratch[:0]\n\t\t\tfor k := start; k < nextVersion; k++ {\n\t\t\t\tif child[k].Visible {\n\t\t\t\t\t// It's possible for this child to be present at multiple locations in the parent\n\t\t\t\t\tfor _, cl := range locs {\n\t\t\t\t\t\tu := child[k].Update()\n\t\t\t\t\t\tu.Index = cl.Index\n\t\t\t\t\t\tupdates = append(updates, u)\n\t\t\t\t\t}\n\t\t\t\t} else {\n\t\t\t\t\t// A child has become not-visible between parent version.\n\t\t\t\t\t// This is a data inconsistency that can happen in old data\n\t\t\t\t\t// i.e. pre element versioning.\n\t\t\t\t\t//\n\t\t\t\t\t// see node 321452894, changed 7 times in\n\t\t\t\t\t// the same changeset, version 5 was a delete. (also node 65172196)\n\t\t\t\t\tif !opts.IgnoreInconsistency {\n\t\t\t\t\t\treturn nil, fmt.Errorf(\"%v: %v: child deleted between parent versions\",\n\t\t\t\t\t\t\tparent.ID(), fid)\n\t\t\t\t\t}\n\t\t\t\t}\n\t\t\t}\n\n\t\t\t// we have what we need for this parent version.\n\t\t\tif results[parentIndex] == nil {\n\t\t\t\tresults[parentIndex] = updates\n\t\t\t} else {\n\t\t\t\tresults[parentIndex] = append(results[parentIndex], updates...)\n\t\t\t}\n\t\t\tscratch = updates\n",
+				ExpectRule: "A5", ExpectConstruct: "group@Compute results"},
 		},
 	})
 }
